@@ -270,6 +270,15 @@ func slice(x, lo, hi, max value) value {
 	if ls, ok := x.(*lenstr); ok {
 		return ls.slice(lo, hi)
 	}
+	if sv, ok := x.([]value); ok && lo == nil && max == nil && isSym(hi) {
+		// buf[:n] with a symbolic count: keep only the length
+		h := hi.(*symv).t
+		okc := tand(mkBool("bvsle", bvConst(64, 0), h), mkBool("bvsle", h, bvConst(64, uint64(cap(sv)))))
+		if !theEngine.decide(okc) {
+			panic(runtimeErrString("slice bounds out of range (symbolic)"))
+		}
+		return &lenbytes{h}
+	}
 	var Len, Cap int
 	switch x := x.(type) {
 	case string:
@@ -1185,6 +1194,12 @@ func widen(x value) value {
 func conv(t_dst, t_src types.Type, x value) value {
 	if sx, ok := x.(*symv); ok {
 		return symConv(t_dst, sx)
+	}
+	if lb, ok := x.(*lenbytes); ok {
+		if b, ok := t_dst.Underlying().(*types.Basic); ok && b.Info()&types.IsString != 0 {
+			return &lenstr{lb.n}
+		}
+		panic(pathAbort{"unsupported conversion of a symbolic-length byte slice"})
 	}
 	ut_src := t_src.Underlying()
 	ut_dst := t_dst.Underlying()
